@@ -145,4 +145,4 @@ def run(ctx):
     from hypothesis import strategies as st
 
     strat = st.tuples(gen.programs(cfg), st.booleans()).map(lambda t: {**t[0], "wide_tables": t[1]})
-    ctx.campaign("main", strat, oracle, max_examples=ctx.n(350, 32000))
+    ctx.campaign("main", strat, oracle, max_examples=ctx.n(900, 32000))
